@@ -255,3 +255,32 @@ func verifH_C09_gorilla_path_servers() {
 	}
 	verifReach("end")
 }
+
+//verif:harness id=C09 tier=quick,thorough witness=end bounds="gorilla/mux-based router, two lookups on one router: document /a (GET), /a/{x} (GET, PUT), /a/b (GET); two requests with paths from {/a, /a/b, /a/v, /zz} and methods GET/PUT/POST; after both lookups each returned route still carries its own request's method, the operation declared for that method under its template, and its own path parameters"
+func verifH_C09_gorilla_two_lookups() {
+	doc := verifGorillaDoc()
+	r, err := NewRouter(doc)
+	if err != nil {
+		return
+	}
+	pathsPool := []string{"/a", "/a/b", "/a/v", "/zz"}
+	methods := []string{"GET", "PUT", "POST"}
+	mk := func(p string) *http.Request {
+		return &http.Request{Method: methods[verifChoose(p+"m", 3)], URL: &url.URL{Path: pathsPool[verifChoose(p+"p", 4)]}, Header: http.Header{}}
+	}
+	req1, req2 := mk("1"), mk("2")
+	route1, vars1, err1 := r.FindRoute(req1)
+	route2, vars2, err2 := r.FindRoute(req2)
+	check := func(req *http.Request, route *routers.Route, vars map[string]string, err error) {
+		if err != nil {
+			return
+		}
+		item := doc.Paths.Value(route.Path)
+		verifAssert(item != nil && route.Method == req.Method && route.Operation != nil && route.Operation == item.GetOperation(req.Method), "C09 gorilla two lookups: each returned route carries the operation declared for its own request's method under its template")
+		want := strings.Replace(route.Path, "{x}", vars["x"], 1)
+		verifAssert(want == req.URL.Path, "C09 gorilla two lookups: each route's template filled with its own parameters is its own request's path")
+	}
+	check(req1, route1, vars1, err1)
+	check(req2, route2, vars2, err2)
+	verifReach("end")
+}
